@@ -132,6 +132,7 @@ type Enc struct {
 	atArgTypes  []types.Type
 	atResTypes  []types.Type
 	siteOrd     map[ssa.Instruction]int
+	siteOrdQ    map[ssa.Instruction]int
 	curInstr    ssa.Instruction
 	callLog     map[string]SV
 	replayTerm  map[string]SV
